@@ -535,7 +535,7 @@ class ScrollBar(WidgetDecoration[WrappedWidget]):
             pos = ow_base.get_first_visible_pos(ow_size, focus)
 
             # in the case of estimated length, it can be smaller than real widget length
-            ow_len = max(ow_len, visible_amount, pos)
+            ow_len = max(ow_len, pos + visible_amount)
             posmax = ow_len - visible_amount
             thumb_weight = min(1.0, visible_amount / max(1, ow_len))
 
